@@ -202,7 +202,7 @@ pub fn run(ctx: &Ctx) {
         return;
     }
     let cfg = gen::GenCfg::balanced();
-    let n = ctx.n(25_000, 1_500_000);
+    let n = ctx.n(50_000, 800_000);
     ctx.proptest_tapes("structure", n, 900, Via::Cli, Some(&custom), |t| {
         let prog = gen::gen_prog(t, &cfg);
         let style = print::Style::wild(20);
